@@ -67,6 +67,32 @@ fn rstep_names(log: &str, out: &mut BTreeSet<String>) {
     }
 }
 
+/// Non-initial start states: histories evaluated (recording off) before the program under test.
+/// A source that fails at run time leaves what it had on the stacks (frames, loop ranges,
+/// data); the next source then runs in a context whose floors sit above that debris.
+pub const PREFIXES: [&[&str]; 6] = [
+    &[],
+    &[": pf drop ; pf"],
+    &[": pf drop ; pf", "drop"],
+    &["9 3 0 do drop drop loop"],
+    &["9 3 0 do drop drop loop", ": pg 1 local z drop drop ; pg", "drop"],
+    &["1 2 [ 3", "7 var pv [ 1 2 ] foreach drop drop loop"],
+];
+
+pub fn make_bases() -> Vec<(String, Xstate)> {
+    PREFIXES
+        .iter()
+        .map(|h| {
+            let mut xs = boot();
+            let _ = xs.set_insn_limit(Some(10_000));
+            for s in h.iter() {
+                let _ = guarded(|| xs.eval(s));
+            }
+            (h.iter().map(|s| format!("`{}`", s)).collect::<Vec<_>>().join(" then "), xs)
+        })
+        .collect()
+}
+
 /// returns Err((key, detail)) on a violation
 fn check_program(base: &Xstate, src: &str, with_input: bool, st: &mut Stats) -> Result<(), (String, String, String)> {
     let mut xs = base.clone();
@@ -206,11 +232,12 @@ pub fn run(cfg: &Cfg) -> i32 {
             *t.lens.entry(k).or_insert(0) += v;
         }
     };
-    let report = |src: &str, key: String, path: String, detail: String, input: bool| {
-        let w = (src.len() as u64) * 100 + path.len() as u64;
+    let report = |pre: &str, src: &str, key: String, path: String, detail: String, input: bool| {
+        let w = (pre.len() as u64) * 10_000 + (src.len() as u64) * 100 + path.len() as u64;
         rep.report_w(&key, w, || {
             jo(vec![
                 ("kind", js("reverse-step")),
+                ("sources_evaluated_before", js(if pre.is_empty() { "none".to_string() } else { pre.to_string() })),
                 ("source", js(src)),
                 ("binary_input", js(if input { format!("{:x?}", corpus::BIN_INPUT) } else { "none".into() })),
                 ("moves_from_end_of_forward_run", js(path.clone())),
@@ -225,15 +252,22 @@ pub fn run(cfg: &Cfg) -> i32 {
         }
         let before = nprog.load(Ordering::Relaxed);
         par_run(cfg.threads, tasks_all.len(), 1, |_t, pull| {
-            let base = boot();
+            let bases = make_bases();
             let mut st = Stats { programs: 0, skipped_compile: 0, states: 0, transitions: 0, trivial: 0, opcodes: BTreeSet::new(), rsteps: BTreeSet::new(), lens: BTreeMap::new() };
             while let Some(r) = pull() {
                 for ti in r {
                     run_task(gr, &tasks_all[ti], &mut |prog, _| {
                         let src = source(prog);
-                        nprog.fetch_add(1, Ordering::Relaxed);
-                        if let Err((key, path, detail)) = check_program(&base, &src, false, &mut st) {
-                            report(&src, key, path, detail, false);
+                        // the fresh interpreter for every program; the debris-laden start states for
+                        // the programs one node below the bound
+                        for (bi, (pre, base)) in bases.iter().enumerate() {
+                            if bi > 0 && (sz(prog) >= *maxn || bi % 2 == 1) {
+                                continue;
+                            }
+                            nprog.fetch_add(1, Ordering::Relaxed);
+                            if let Err((key, path, detail)) = check_program(base, &src, false, &mut st) {
+                                report(pre, &src, key, path, detail, false);
+                            }
                         }
                     });
                 }
@@ -245,16 +279,18 @@ pub fn run(cfg: &Cfg) -> i32 {
     // templates, each with and without the binary input
     let tpl = corpus::templates();
     {
-        let base = boot();
+        let bases = make_bases();
         let mut st = Stats { programs: 0, skipped_compile: 0, states: 0, transitions: 0, trivial: 0, opcodes: BTreeSet::new(), rsteps: BTreeSet::new(), lens: BTreeMap::new() };
-        for src in &tpl {
-            nprog.fetch_add(1, Ordering::Relaxed);
-            if let Err((key, path, detail)) = check_program(&base, src, true, &mut st) {
-                report(src, key, path, detail, true);
+        for (pre, base) in &bases {
+            for src in &tpl {
+                nprog.fetch_add(1, Ordering::Relaxed);
+                if let Err((key, path, detail)) = check_program(base, src, true, &mut st) {
+                    report(pre, src, key, path, detail, true);
+                }
             }
         }
         merge(st);
-        corp_sizes.push(jo(vec![("corpus", js("templates")), ("programs", ji(tpl.len()))]));
+        corp_sizes.push(jo(vec![("corpus", js("templates")), ("programs", ji(tpl.len())), ("start_states", ji(bases.len()))]));
     }
     let t = total.into_inner().unwrap();
     // vacuity guards: the instruction repertoire and every inverse-operation kind must be exercised
@@ -278,9 +314,10 @@ pub fn run(cfg: &Cfg) -> i32 {
     ev.traces = t.programs;
     ev.nontrivial = t.programs - t.trivial;
     ev.rule = format!(
-        "every program of the control-flow grammar and of the repertoire grammar (stack shufflers, builders, foreach, locals, variables) up to {} nodes, plus {} hand-written repertoire programs run with a 6-byte binary input; forward history capped at {} steps; per program an explicit-state search over {{rnext,next}} from the end of the forward run with the projected dump (reverse log included) as key, run to closure (n+1 states, 2n+2 transitions). non-trivial = compiled programs whose history has at least one step (all distinct sources)",
-        gsets[0].2, tpl.len(), MAX_STEPS
+        "every program of the control-flow grammar and of the repertoire grammar (stack shufflers, builders, foreach, locals, variables) up to {} nodes, plus {} hand-written repertoire programs run with a 6-byte binary input; every template from each of the {} start states (fresh, and after histories of sources that failed inside a call / a counted loop / a builder / foreach and left their frames, loop ranges and data behind), the grammar programs below the node bound also from two of the debris states; forward history capped at {} steps; per program an explicit-state search over {{rnext,next}} from the end of the forward run with the projected dump (reverse log included) as key, run to closure (n+1 states, 2n+2 transitions). non-trivial = compiled programs whose history has at least one step (all distinct sources)",
+        gsets[0].2, tpl.len(), PREFIXES.len(), MAX_STEPS
     );
+    ev.add("start_state_histories", J::A(PREFIXES.iter().map(|h| J::A(h.iter().map(|s| js(*s)).collect())).collect()));
     ev.add("corpora", J::A(corp_sizes));
     ev.add("programs_stepped", ji(t.programs));
     ev.add("rejected_by_compiler_skipped", ji(t.skipped_compile));
